@@ -75,7 +75,7 @@ func (r *sortedDataReader) FindAnswer(q []byte, packedControlName []byte, qname 
 	preIterationCheck := func(q []byte, length int) bool {
 		// we iterate on labels of initial qName, so length check should be sufficient to determine
 		// whether we passed zone border
-		if len(q) < len(packedControlName) {
+		if length < len(packedControlName) {
 			return false
 		}
 
